@@ -114,6 +114,7 @@ package zerolog
 // Configuration the properties take as given (C01: time layouts without quote,
 // backslash or control characters; marshal functions present).
 //@ spec cleanlayout(layout string) bool
+//@ spec instring(res bytes, dst bytes) bool = lex(res) == 1 && mode(res) == mode(dst) && stk(res) == stk(dst) && prefix(res, dst) && len(res) >= len(dst)
 //@ config cleanlayout(TimeFieldFormat)
 //@ config LevelFieldMarshalFunc != nil && ErrorMarshalFunc != nil && TimestampFunc != nil && CallerMarshalFunc != nil && InterfaceMarshalFunc != nil
 //@ config DurationFieldUnit != 0
